@@ -98,6 +98,28 @@ class Rig:
         sg.allocate()
         sg.current_data = bytearray(max(46, sg.packet.size))
         self.v, self.sg = v, sg
+        # a second valve of the same class in the same process, on terminals
+        # and in a sync group of its own: whatever happens to it must not
+        # matter to the valve under test
+        t2 = EL2808(ec)
+        t2.position = 5
+        t2.pdos = {(0x7000 + 0x10 * i, 1): (SyncManager.OUT, 0, i)
+                   for i in range(8)}
+        t2.pdo_in_sz, t2.pdo_out_sz = 0, 1
+        i2 = EL1808(ec)
+        i2.position = 6
+        i2.pdos = {(0x6000 + 0x10 * i, 1): (SyncManager.IN, 0, i)
+                   for i in range(8)}
+        i2.pdo_in_sz, i2.pdo_out_sz = 1, 0
+        v2 = cls()
+        v2.coil, v2.openSwitch, v2.closedSwitch = \
+            t2.channel1, i2.channel1, i2.channel2
+        sg2 = SyncGroup(ec, [v2])
+        sg2.allocate()
+        sg2.current_data = bytearray(max(46, sg2.packet.size))
+        self.v2, self.sg2 = v2, sg2
+        self.coil2_at = (sg2.pdo_assign[t2][SyncManager.OUT], 0)
+        self.in2_at = sg2.pdo_assign[i2][SyncManager.IN]
         self.coil_at = (sg.pdo_assign[tout][SyncManager.OUT], lay["coil"])
         self.open_at = (sg.pdo_assign[tins[lay["open"][0]]][SyncManager.IN],
                         lay["open"][1])
@@ -107,7 +129,9 @@ class Rig:
         if len({self.coil_at, self.open_at, self.closed_at}) != 3:
             raise core.Internal("rig: process bits overlap")
         self.setbit(self.coil_at, cfg["coil0"])
+        v2.reset()
         v.reset()
+        self.safe = cfg["safe"]
 
     def setbit(self, at, val):
         pos, bit = at
@@ -131,6 +155,17 @@ class Rig:
             self.clock.now += arg
         elif kind == "update":
             self.v.update()
+        elif kind == "other":
+            # the other valve sits confirmed in its position and is updated
+            # (or is reset); then the valve under test is updated
+            if arg == "reset":
+                self.v2.reset()
+            else:
+                d = self.sg2.current_data
+                coil2 = bool(d[self.coil2_at[0]] & 1)
+                d[self.in2_at] = 2 if coil2 == self.safe else 1
+                self.v2.update()
+            self.v.update()
         else:
             raise core.Internal("unknown event %r" % (ev,))
 
@@ -144,6 +179,8 @@ class Rig:
         lg = getattr(self.v, "lastGood", None)
         if lg is None:
             return "none"
+        if not isinstance(lg, (int, float)):
+            return "opaque"     # kept some other way: the model's is used
         el = self.clock.now - lg
         return "expired" if el >= mt else el
 
@@ -212,6 +249,7 @@ def events(cfg, ctx):
     evs += [("sw", (o, c)) for o in (False, True) for c in (False, True)]
     evs += [("adv", a) for a in adv]
     evs.append(("update", None))
+    evs += [("other", "update"), ("other", "reset")]
     return evs
 
 
@@ -226,7 +264,7 @@ def run_history(cfg, history):
     for ev in history:
         ob, mb = rig.observe(), model.observe()
         rig.apply(ev)
-        kind = model.apply(ev)
+        kind = model.apply(("update", None) if ev[0] == "other" else ev)
         trace.append((ob, rig.observe(), mb, model.observe(), kind))
     return rig, model, trace
 
@@ -302,6 +340,10 @@ def explore(item, res):
                 res.count("transitions", len(h2))
                 res.count("evaluations")
                 ob, oa, mb, ma, kind = trace[-1]
+                other = ev[0] == "other"
+                if other:
+                    res.count("updates_after_the_other_valve")
+                    ev = ("update", None)
                 if ev[0] == "update":
                     res.nontrivial.add(core.digest(
                         [cfgkey, seen_key(seen, hist), ev]))
@@ -416,7 +458,8 @@ def replay(ctx, rep):
         for ev, (ob, oa, mb, ma, kind) in zip(hist, trace):
             print("  %-28r device %s -> %s   model %s -> %s %s" % (
                 ev, ob, oa, mb, ma, kind or ""))
-            verdict = judge(cfg, ev, ob, oa, mb, ma)
+            verdict = judge(cfg, ("update", None) if ev[0] == "other"
+                            else ev, ob, oa, mb, ma)
             if verdict is not None:
                 exp, obs, what, kf = verdict
                 res.violation(c, exp, obs, kf=kf, note=what)
